@@ -593,6 +593,12 @@ def _reported(char):
 # --------------------------------------------------------------------------- the oracle (property itself)
 
 _SHOWN = ("Format", "minValue", "maxValue", "minStep", "ValidValues", "maxLen")
+# Report a getter callback's answer that is stored / reported outside the declared valid values as a property
+# failure?  False: it is counted (evidence note) - the property's quantifier lists set / controller-write /
+# override operations and the lead has not ruled on getter answers (design/audit/char.md, section 3).  True: the
+# unrepaired tree then yields `C09:stored-not-a-valid-value:after-read` with a replay, the tree with
+# design/fixes/C09-getter-valid-values.patch is clean.
+JUDGE_GETTER_ANSWERS = False
 GETTER_UNDECLARED = [0]  # getter answers stored / reported outside the declared valid values (counted, see judge_case)
 
 
@@ -671,7 +677,8 @@ def judge_case(case) -> List[Dict[str, str]]:
                 why = ref.nonconformity(props, an, allow and not strict, v)
                 if why == "not-a-valid-value" and k in tainted and where in ("stored", "reported", "returned"):
                     GETTER_UNDECLARED[0] += 1
-                    continue
+                    if not JUDGE_GETTER_ANSWERS:
+                        continue
                 if why and not fails:
                     shown = {x: props[x] for x in _SHOWN if x in props}
                     if sibling and kind in ("override", "configure"):
@@ -1340,7 +1347,10 @@ def run(ctx: Ctx):
                 judged[key] = (
                     {"layer": "char", "op": "judge", "props": pj, "v": enc(v),
                      "cfg": {"alwaysNull": an, "allowInvalid": allow}},
-                    {"consistent": ref.consistent(props), "conf": ref.nonconformity(props, an, allow, v) is None},
+                    {"consistent": ref.consistent(props), "conf": ref.nonconformity(props, an, allow, v) is None,
+                     # the two other predicates of the theorems: no opt-in exemption / no valid-values clause
+                     "strict": ref.nonconformity(props, an, False, v) is None,
+                     "base": ref.nonconformity(dict(props, ValidValues=None), an, True, v) is None},
                 )
 
         def collect(info):
@@ -1433,7 +1443,7 @@ def run(ctx: Ctx):
     for ln, m, w in zip(cons_lines, model[len(lines) :], cons_want):
         st.traces_validated += 1
         if "conf" in w and not w["consistent"]:
-            m = dict(m, conf=w["conf"])  # conformance is only compared on consistent sets
+            m = dict(m, conf=w["conf"], strict=w["strict"], base=w["base"])  # conformance is only compared on consistent sets
         if m != w:
             ctx.disagree("predicates", {"props": ln["props"], "cfg": ln.get("cfg"), "v": ln.get("v")}, m, w)
 
